@@ -58,7 +58,9 @@ func convertToStringBytes(source interface{}) (val []byte, err error) {
 	case []byte:
 		val = s
 	case []rune:
-		val = []byte(string(s))
+		if s != nil {
+			val = []byte(string(s))
+		}
 	case *string:
 		if s != nil {
 			val = []byte(*s)
